@@ -107,27 +107,40 @@ BodyOf(v, bk, q1, q2, q3) ==
         + Dibit(bk[4 * g + 2], q1, q2, q3) * 16
         + Dibit(bk[4 * g + 3], q1, q2, q3) * 64]
 
+\* Everything finalisation derives from the buckets alone (shared by all 32
+\* option sets): whether the third quartile is zero, the number of non-zero
+\* buckets, the Q-ratio byte under either formula and the body.
+FinParts(v, bk) ==
+    LET qs == Quartiles(v, bk)
+        q  == IF qs[3] = WZero THEN <<WOne, WOne, WOne>> ELSE qs     \* dummy quartiles
+    IN  [q3zero |-> qs[3] = WZero,
+         nz     |-> NonZeroCount(v, bk),
+         qInt   |-> QRatio(q[2], q[3], FALSE) * 16 + QRatio(q[1], q[3], FALSE),
+         qF32   |-> QRatio(q[2], q[3], TRUE) * 16 + QRatio(q[1], q[3], TRUE),
+         body   |-> BodyOf(v, bk, q[1], q[2], q[3])]
+
 \* n: fed length as a word, or WNone for 2^W bytes or more.
-Finalize(v, bk, ck, n, o) ==
+\* Rejections in the order length -> three-quarter-empty -> half-empty.
+FinalizeP(v, parts, ck, n, code, o) ==
     LET val == LenValidity(n, v.min, v.minCons) IN
     IF val = "TooLarge" THEN ResErr("TooLargeInput")
     ELSE IF ValidityIsErrOn(val, OptConservative(o)) /\ ~OptSmall(o) THEN ResErr("TooSmallInput")
-    ELSE
-      LET qs == Quartiles(v, bk) IN
-      IF qs[3] = WZero /\ ~OptQuarter(o) THEN ResErr("BucketsAreThreeQuarterEmpty")
-      ELSE
-        LET q  == IF qs[3] = WZero THEN <<WOne, WOne, WOne>> ELSE qs IN
-        IF NonZeroCount(v, bk) < v.minNz /\ ~(OptHalf(o) \/ OptQuarter(o))
-        THEN ResErr("BucketsAreHalfEmpty")
-        ELSE ResOk(ck \o <<LenCode(n)>>
-                      \o <<QRatio(q[2], q[3], OptF32(o)) * 16 + QRatio(q[1], q[3], OptF32(o))>>
-                      \o BodyOf(v, bk, q[1], q[2], q[3]))
+    ELSE IF parts.q3zero /\ ~OptQuarter(o) THEN ResErr("BucketsAreThreeQuarterEmpty")
+    ELSE IF parts.nz < v.minNz /\ ~(OptHalf(o) \/ OptQuarter(o)) THEN ResErr("BucketsAreHalfEmpty")
+    ELSE ResOk(ck \o <<code>>
+                  \o <<IF OptF32(o) THEN parts.qF32 ELSE parts.qInt>>
+                  \o parts.body)
+
+Finalize(v, bk, ck, n, o) == FinalizeP(v, FinParts(v, bk), ck, n, LenCode(n), o)
 
 RefHash(v, data, o) ==
     Finalize(v, RefBuckets(v, data), RefChecksum(v, data), WOfNat(Len(data)), o)
 
 \* The fan of all 32 option sets (index o + 1).
-FinalizeFan(v, bk, ck, n) == [i \in 1..32 |-> Finalize(v, bk, ck, n, i - 1)]
+FinalizeFan(v, bk, ck, n) ==
+    LET parts == FinParts(v, bk)
+        code  == LenCode(n)
+    IN  [i \in 1..32 |-> FinalizeP(v, parts, ck, n, code, i - 1)]
 
 \* Laws over a fan (C10): permissiveness only widens acceptance and never
 \* changes an accepted hash; the error kinds are ordered length -> 3/4 -> 1/2.
